@@ -244,7 +244,8 @@ class ClientModel:
         return 1 + 2 * len(self.slots)
 
     def key(self) -> tuple:
-        return (tuple((s["kind"], s["open"], s["reset"], s["released"], s["ended"], s["odd"]) for s in self.slots),
+        return (tuple((s["kind"], s["open"], s["reset"], s["released"], s["ended"], s["odd"], s.get("ws_over", False))
+                      for s in self.slots),
                 self.goaway, self.small_window, tuple(sorted(self.tags)), self.npre)
 
     def enabled(self, kinds: Tuple[str, ...]) -> List[tuple]:
@@ -281,16 +282,18 @@ class ClientModel:
             return f_headers(sid, headers, end, **extra)
         if k == "D":
             s = self.slots[op[1]]
-            if s["kind"] == "post_now":
+            if s["kind"] == "post_now" or s.get("ws_over"):
                 self.tags.add("data-after-response")
                 s["odd"] = True
+            if s["kind"] in ("connect_ext", "nonascii_ws"):
+                s["ws_over"] = True  # b"xy" is not a WebSocket frame: the server ends the WebSocket (1002)
             if op[2]:
                 s["open"] = False
                 s["ended"] = True
             return f_data(s["sid"], b"xy", bool(op[2]), pad=op[3])
         if k == "T":
             s = self.slots[op[1]]
-            if s["kind"] == "post_now":
+            if s["kind"] == "post_now" or s.get("ws_over"):
                 self.tags.add("data-after-response")
                 s["odd"] = True
             s["open"] = False
